@@ -86,7 +86,10 @@ def run_unit(ex, H, unit, res):
                 if i < n - 1:
                     off_blocks = ex.binop('Add', off_blocks, blocks[i], False)
             total = ex.binop('Add', ex.cast(ex.binop('Mul', off_blocks, U16(8), False), 'u64', 'IntToInt'), ex.cast(last, 'u64', 'IntToInt'), False)
-            dgs.append({'pieces': pieces, 'total': total, 'key': (src, dst, proto, ident), 'first_hdr': pieces[0][0], 'n': n})
+            # the same datagram as it arrives over a path that did not have to fragment it
+            whole_hdr = H.make(f'h{d}_W', ex.binop('Add', ex.cast(total, 'u16', 'IntToInt'), U16(20), False), U16(0), False, ident, src, dst, proto, ttl)
+            whole = (whole_hdr, msg_of(f'D{d}', U64(0), total), U64(0), total)
+            dgs.append({'pieces': pieces, 'whole': whole, 'total': total, 'key': (src, dst, proto, ident), 'first_hdr': pieces[0][0], 'n': n})
         if len(dgs) == 2:
             # are the two reassembly keys equal?  (decided per path by the solver)
             k0, k1 = dgs[0]['key'], dgs[1]['key']
@@ -113,13 +116,16 @@ def run_unit(ex, H, unit, res):
                     received[dd] = set()
                     del incomplete_tokens[dd]
                     log.append(f'cull(current epoch) D{dd}')
-            hdr, msg, boff, blen = dgs[d]['pieces'][i]
+            hdr, msg, boff, blen = dgs[d]['whole'] if i == 'W' else dgs[d]['pieces'][i]
             dup = i in received[d]
             r = ex.call('Reassembly::receive_packet', [Ref(reasm, 'r'), clone_val(hdr), MsgV(msg.ext)])
-            received[d].add(i)
             info = ex.enum_info['ReceivePacketResult']
-            complete_expected = len(received[d]) == dgs[d]['n']
-            log.append(f'D{d}.piece{i}' + ('(dup)' if dup else ''))
+            if i == 'W':
+                complete_expected = True          # it covers the datagram entirely on its own
+            else:
+                received[d].add(i)
+                complete_expected = len(received[d]) == dgs[d]['n']
+            log.append((f'D{d}.whole' if i == 'W' else f'D{d}.piece{i}') + ('(dup)' if dup else ''))
             res['obligations'] += 1
             if r.variant == info['Complete']:
                 if not complete_expected:
@@ -160,7 +166,7 @@ def run_unit(ex, H, unit, res):
     def on_end(ex, kind, r):
         res['paths'] += 1
         if kind == 'panic':
-            res['violations'].append({'key': f'mirx:reassembly:panic:{_short(r.msg)}', 'desc': f'panic in {r.site}: {r.msg}', 'values': {}, 'unit': res['unit']})
+            res['violations'].append({'key': f'mirx:reassembly:panic:{_short(r.msg)}', 'desc': f'panic in {r.site}: {r.msg}', 'values': ex.model_values(), 'unit': res['unit']})
             return
         if len(res['samples']) < 2:
             res['samples'].append(' ; '.join(r))
@@ -204,6 +210,11 @@ def units(tier):
         us.append({'pieces': (2, 2), 'order': o})
     # re-sent datagram after completion (pieces received since its LAST completion)
     us.append({'pieces': (2, 0), 'order': [(0, 0), (0, 1), (0, 1), (0, 0)]})
+    # the datagram also arrives unfragmented (another path): that is a completion; pieces received before it no longer count
+    us.append({'pieces': (2, 0), 'order': [(0, 0), (0, 'W'), (0, 1)]})
+    us.append({'pieces': (2, 0), 'order': [(0, 'W'), (0, 1), (0, 0)]})
+    us.append({'pieces': (3, 0), 'order': [(0, 1), (0, 0), (0, 'W'), (0, 2)]})
+    us.append({'pieces': (2, 2), 'order': [(0, 0), (1, 0), (0, 'W'), (1, 1), (0, 1)]})
     # expiry callback with stale / current epoch between arrivals
     us.append({'pieces': (3, 0), 'order': [(0, 0), (0, 1), (0, 2)], 'cull': (2, 'stale')})
     us.append({'pieces': (2, 0), 'order': [(0, 0), (0, 1), (0, 0)], 'cull': (1, 'current')})
